@@ -214,6 +214,101 @@ func raceMain(args []string) {
 				}
 			}
 		}
+	} else if *mode == "loopvars" {
+		// executions that FAIL inside a loop body next to executions of another template of the same manager whose loops use
+		// other variable names and whose bodies mention the first one's variable name (bound in their own data, or nowhere):
+		// whatever the engine keeps per loop (variable maps, scopes) must not travel from one execution to another, also not
+		// on the error path. Expected outputs are native.
+		files := [][2]string{
+			{"a.html", `<ul><li :range="i, account : accounts" :text="${i}:${account.name}">o</li></ul>`},
+			{"b.html", `<ol><li :range="k, o : orders" :text="${account}: ${o}">o</li></ol>`},
+			{"c.html", `<ol><li :range="k, o : orders"><b :text="${o}">o</b><i :if="${k == 1}" :text="${i}">o</i></li></ol>`},
+		}
+		for round := 0; round < *rounds; round++ {
+			rc := &renderCase{Files: files, Tpl: "a.html"}
+			m, lerr, p := implLoad(rc, nil)
+			if lerr != nil || p != nil {
+				fmt.Println("RACE-RESULT " + `{"executions":0,"mismatches":1,"samples":["loopvars templates do not load"]}`)
+				return
+			}
+			G := 3 + r.n(8)
+			type job struct {
+				tpl  string
+				data map[string]any
+				want string
+			}
+			jobs := make([]job, G)
+			for g := range jobs {
+				switch (g + round) % 4 {
+				case 0: // fails at the second item: the first item has been written
+					jobs[g] = job{"a.html", map[string]any{"accounts": []any{map[string]any{"name": "ann"}, map[string]any{"iban": "SECRET"}, map[string]any{"name": "zed"}}}, "<ul><li>1:ann</li><li> ERR"}
+				case 1:
+					jobs[g] = job{"b.html", map[string]any{"account": fmt.Sprint("bob", g), "orders": []any{"x1", "x2"}}, fmt.Sprintf("<ol><li>bob%d: x1</li><li>bob%d: x2</li></ol>", g, g)}
+				case 2: // `account` is bound nowhere in this execution: an error, never another execution's value
+					jobs[g] = job{"b.html", map[string]any{"orders": []any{"x1"}}, "<ol><li> ERR"}
+				default: // `i` is bound nowhere
+					jobs[g] = job{"c.html", map[string]any{"orders": []any{"y1"}}, "<ol><li>y1<b> ERR"}
+				}
+			}
+			// the reference: each job ALONE on a manager of its own; the three failing kinds must fail there too
+			for g := range jobs {
+				ref, _, _ := implLoad(rc, nil)
+				t, _ := ref.tm.GetTemplate(jobs[g].tpl)
+				w := &chunkWriter{failAt: -1}
+				err := t.Execute(w, jobs[g].data)
+				alone := strings.Join(w.chunks, "")
+				if err != nil {
+					alone += " ERR"
+				}
+				if (err != nil) != strings.HasSuffix(jobs[g].want, " ERR") {
+					fmt.Println("RACE-RESULT " + `{"executions":0,"mismatches":1,"samples":["loopvars reference run has an unexpected outcome"]}`)
+					return
+				}
+				jobs[g].want = alone
+			}
+			var wg sync.WaitGroup
+			start := make(chan struct{})
+			got := make([]string, G)
+			for g := 0; g < G; g++ {
+				wg.Add(1)
+				go func(g int) {
+					defer wg.Done()
+					t, err := m.tm.GetTemplate(jobs[g].tpl)
+					if err != nil {
+						got[g] = "GET " + err.Error()
+						return
+					}
+					if round%3 != 0 {
+						<-start
+					}
+					for k := 0; k < 4; k++ {
+						w := &chunkWriter{failAt: -1}
+						if err := t.Execute(w, jobs[g].data); err != nil {
+							got[g] = strings.Join(w.chunks, "") + " ERR"
+						} else {
+							got[g] = strings.Join(w.chunks, "")
+						}
+						if got[g] != jobs[g].want {
+							return
+						}
+					}
+				}(g)
+				if round%3 == 0 {
+					wg.Wait()
+				}
+			}
+			close(start)
+			wg.Wait()
+			for g := 0; g < G; g++ {
+				total++
+				if got[g] != jobs[g].want {
+					mismatches++
+					if len(samples) < 5 {
+						samples = append(samples, J{"files": files, "tpl": jobs[g].tpl, "goroutines": G, "serial_round": round%3 == 0, "alone": jobs[g].want, "here": trunc(got[g], 200)})
+					}
+				}
+			}
+		}
 	} else if *mode == "deep" {
 		// many executions that are DEEP inside nested fragments at the same moment: a data-bounded recursive fragment
 		// whose innermost level calls a barrier function, so that all goroutines are at their full depth together
@@ -439,6 +534,9 @@ func propC15(c *ctx) error {
 		return err
 	}
 	if err := run("types", c.n(30, 900)); err != nil {
+		return err
+	}
+	if err := run("loopvars", c.n(30, 900)); err != nil {
 		return err
 	}
 	return run("render", c.n(120, 5000))
